@@ -559,6 +559,34 @@ func execReal(line string) zv.Out {
 			v.mustResume("second use of the same ticket", base, e.handshake())
 		}
 		v.tag("cfg=" + args[0])
+	case "cfclock":
+		// GetConfigForClient returns a Config with SessionTicketsDisabled: Config.ticketKeys(configForClient) takes
+		// configForClient.mutex.RLock() and (tls/common.go) returns nil on that branch.  Is the read lock released?
+		// A later writer on that Config (SetSessionTicketKeys takes mutex.Lock()) shows it: it must return.
+		// OBSERVATION only (tag), not a violation: the property text speaks about which tickets resume.
+		e := newEnv(r, vers, suite, true)
+		inner := e.scfg.Clone()
+		inner.SessionTicketsDisabled = args[0] == "disabled"
+		e.scfg.GetConfigForClient = func(*tls.ClientHelloInfo) (*tls.Config, error) { return inner, nil }
+		o1 := e.handshake()
+		if !o1.ok {
+			v.fail("handshake through GetConfigForClient (%s) failed: %v", args[0], o1)
+			break
+		}
+		o2 := e.handshake()
+		if args[0] == "disabled" {
+			v.mustNotResume("per-client Config has SessionTicketsDisabled", o1, o2)
+		} else {
+			v.mustResume("per-client Config (tickets enabled, keys of the outer Config)", o1, o2)
+		}
+		done := make(chan struct{})
+		go func() { defer close(done); inner.SetSessionTicketKeys([][32]byte{e.keys[1]}) }()
+		select {
+		case <-done:
+			v.tag("obs:cfc-" + args[0] + ":SetSessionTicketKeys-returned")
+		case <-time.After(2 * time.Second):
+			v.tag("obs:cfc-" + args[0] + ":SetSessionTicketKeys-BLOCKED(read-lock-leaked-by-ticketKeys)")
+		}
 	case "vr":
 		execVR(r, v, vers, suite, args)
 	default:
@@ -1035,6 +1063,10 @@ func genReal(g *zv.Gen) {
 		for _, k := range []string{"disabled", "clientauth", "suite-removed", "replay"} {
 			emit(c, "cfg", k)
 		}
+		if !g.Quick || ci%4 == 0 { // each "disabled" case waits 2 s for the blocked writer
+			emit(c, "cfclock", "disabled")
+		}
+		emit(c, "cfclock", "enabled")
 		// cross-version / cross-suite presentation
 		for _, t := range realCfgs {
 			if t == c {
